@@ -11,16 +11,17 @@ from vf.params import *
 HARNESS = ['root_intrinsics.go', 'root_scalar.go']
 
 
-def run(tier, seed):
-    ck = Check('C14', tier, seed, level='proof')
+def run(tier, seed, ck=None):
+    own = ck is None
+    ck = ck or Check('C14', tier, seed, level='proof')
     runs = ck.absorb(core.symx(HARNESS, [{'id': 'bits', 'harness': 'vh_bits', 'summaries': kernel_summaries('scalar', 's')}]))
     r = runs[0]
-    ck.extra['_runs'] = runs
-    ck.trusted = ['go/ssa + symx translation (T1,T2)', 'SMT solvers (raced, cross-checked)',
+    ck.extra.setdefault('_runs', []).extend(runs)
+    ck.trusted += ['go/ssa + symx translation (T1,T2)', 'SMT solvers (raced, cross-checked)',
                   'contract of scalar.FromMontgomery (canonical value < n), proved in C06']
-    ck.assumptions = ['FromMontgomery is an uninterpreted function with result < n (its proof is C06\'s obligation)',
+    ck.assumptions += ['FromMontgomery is an uninterpreted function with result < n (its proof is C06\'s obligation)',
                       'the four Montgomery limbs of the receiver are arbitrary 64-bit words']
-    ck.bounds = {'bit positions': '0..255, one obligation each', 'scalar limbs': 'all 2^256 limb vectors'}
+    ck.bounds.update({'bit positions': '0..255, one obligation each', 'scalar limbs': 'all 2^256 limb vectors'})
     kernels.prove(ck, 'scalar', ['FromMontgomery'], tier)
     paths = [p for p in r.paths if p['end'] == 'return']
     ck.ground('C14.paths', 'Bits has exactly one path and it returns (no data-dependent branch, no panic)', len(r.paths) == 1 and len(paths) == 1)
@@ -67,7 +68,7 @@ def run(tier, seed):
             ck.violation('bits:%s' % ','.join(map(str, bad)), 'Bits() wrong at positions %s; %s' % (bad, [l for l in out.splitlines() if 'MISMATCH' in l][:1]), path)
         else:
             ck.inconclusive.append('solver counterexample at positions %s did not reproduce: %s' % (bad, out[-300:]))
-    return ck.finish()
+    return ck.finish() if own else None
 
 
 def replay(path):
